@@ -18,10 +18,6 @@ impl ClientErrorStatusCode {
     #[verifier::external_body]
     pub fn canonical_reason(&self) -> (r: Option<&'static str>) ensures (r is Some) == has_canonical_reason(self.0.code) { unimplemented!() }
 }
-#[verifier::external_body]
-pub fn to_string_pretty(b: &HttpErrorResponseBody) -> (r: Result<String, SerdeJsonError>)
-    ensures r is Ok, r->Ok_0@ == json_pretty(b.request_id@, optv(b.error_code), b.message@) { unimplemented!() }
-
 // ---- CHECKED (shared): spec helpers used by the contracts of the error constructors ----
 pub open spec fn is_error_code(c: u16) -> bool { 400 <= c && c <= 599 }
 pub open spec fn is_client_code(c: u16) -> bool { 400 <= c && c <= 499 }
